@@ -419,6 +419,9 @@ pub fn run(tier: Tier, shard: Shard, stats: &mut Stats) {
         let mut dfs = Dfs::new(&cfg, depth, shard, 2);
         dfs.explore(stats);
     }
+    // the same integrity law on rate-limited targets, where most draws are skipped
+    // (standalone bar on term_like_with_hz: document == logs ++ frame of the last completed draw)
+    crate::c04s::run(tier, shard, stats);
 }
 
 pub fn meta(tier: Tier) -> Meta {
@@ -433,6 +436,7 @@ pub fn meta(tier: Tier) -> Meta {
             "terminal = deferred-wrap VT100 model (harness/src/term.rs), cross-checked against the vt100 crate at every flush in the lock-step configurations".into(),
             "virtual clock advanced 1 s between operations so the position bucket never skips a draw (throttling is C05)".into(),
             "frame reference: independent renderer for 4 templates; differential fresh-bar rendering only for {wide_msg} with multi-line/escape messages".into(),
+            "rate-limited part: standalone bar on term_like_with_hz(1 | 255) and unlimited, histories over burn/idle/tick/inc/set_message/set_length/println/suspend/reset/finish*/drop/wrap_iter; the document must be logs ++ the frame of the last completed draw".into(),
         ],
         bounds: json!({"configurations": cfgs}),
         exhaustive: true,
